@@ -281,7 +281,28 @@ def _p_valid_date(fmt_name):
     return run
 
 
+def _p_plist_append(interp, args, kwargs, env):
+    l, x = args
+    l = sym.force(interp.ctx, l) if isinstance(l, SOpt) else l
+    if isinstance(l, sym.PList):
+        return sym.PList(l.base, l.tail + [x])
+    if isinstance(l, list):
+        return l + [x]
+    raise Unsupported("plist_append on " + type(l).__name__)
+
+
+def _p_plist_last(interp, args, kwargs, env):
+    (l,) = args
+    l = sym.force(interp.ctx, l) if isinstance(l, SOpt) else l
+    tail = l.tail if isinstance(l, sym.PList) else l
+    if not tail:
+        raise SpecError("plist_last of a list with no known last element")
+    return tail[-1]
+
+
 PRIMS = {
+    "plist_append": Prim("plist_append", _p_plist_append),
+    "plist_last": Prim("plist_last", _p_plist_last),
     "date_of_ymd": Prim("date_of_ymd", _p_date_of("Ymd")),
     "valid_ymd": Prim("valid_ymd", _p_valid_date("Ymd")),
     "date_of_y_m_d": Prim("date_of_y_m_d", _p_date_of("Y_m_d")),
@@ -369,6 +390,14 @@ def date_of_y_m_d(s):
 
 def valid_y_m_d(s):
     return _strp(s, "%Y-%m-%d") is not None
+
+
+def plist_append(l, x):
+    return list(l) + [x]
+
+
+def plist_last(l):
+    return l[-1]
 
 
 def forall_str(f):
